@@ -190,6 +190,9 @@ pub enum Fq2Kind {
     /// (d, c) with c = a.c0 from the structured generator and d = sqrt(+-1 - c^2); a = alpha^e * t^2 with
     /// e = ((q-1)/2)^-1 mod 2(q+1) and t = a.c1 in Fq. (pick: bit 0 norm sign, bit 1 position, bit 2 sign of d)
     FromAlpha(u8),
+    /// an element with a PRESCRIBED NORM: n = a.c0 from the structured generator (Montgomery-limb patterns, limbs
+    /// tying with the modulus ...), c1 = a.c1 (stepped), c0 = sqrt(n - c1^2)
+    FromNorm,
 }
 
 #[derive(Clone, Debug, Serialize, Deserialize, PartialEq, Eq, Hash)]
@@ -207,6 +210,7 @@ fn fq2_case_strategy() -> BoxedStrategy<Fq2Case> {
         3 => Just(Fq2Kind::Real),
         2 => Just(Fq2Kind::Imag),
         3 => (0u8..8).prop_map(Fq2Kind::FromAlpha),
+        3 => Just(Fq2Kind::FromNorm),
     ];
     (fq2_strategy(), kind, fq2_strategy()).prop_map(|(a, kind, b)| Fq2Case { a, kind, b }).boxed()
 }
@@ -238,6 +242,25 @@ pub fn check_fq2(c: &Fq2Case, info: &mut Info) -> Result<(), String> {
         Fq2Kind::SquaredTimesNonResidue => base.sqr().mul(&Fq2::new(Fq::one(), Fq::one())),
         Fq2Kind::Real => Fq2::new(base.c0.clone(), Fq::zero()),
         Fq2Kind::Imag => Fq2::new(Fq::zero(), base.c1.clone()),
+        Fq2Kind::FromNorm => {
+            let n = base.c0.clone();
+            let mut c1 = base.c1.clone();
+            let mut found = None;
+            for _ in 0..16 {
+                if let Some(c0) = n.sub(&c1.sqr()).sqrt() {
+                    found = Some(Fq2::new(c0, c1.clone()));
+                    break;
+                }
+                c1 = c1.add(&Fq::one());
+            }
+            match found {
+                Some(a) => {
+                    info.class("constructed-from-a-prescribed-norm");
+                    a
+                }
+                None => base.clone(),
+            }
+        }
         Fq2Kind::FromAlpha(pick) => match from_alpha(&base, pick) {
             Some(a) => {
                 info.class("constructed-from-structured-alpha");
@@ -257,6 +280,7 @@ pub fn check_fq2(c: &Fq2Case, info: &mut Info) -> Result<(), String> {
             Fq2Kind::Real => "in-Fq",
             Fq2Kind::Imag => "imaginary",
             Fq2Kind::FromAlpha(_) => "from-alpha",
+            Fq2Kind::FromNorm => "from-norm",
             _ => "general",
         },
         match e {
